@@ -60,6 +60,7 @@ macro_rules! optionally_unsafe_impl {
 ///
 /// Use this macro along with [`optionally_unsafe!{}`].
 #[doc(alias = "invariant")]
+#[cfg(not(fast_tlsh_verif))]
 macro_rules! invariant_impl {
     ($expr: expr) => {
         cfg_if::cfg_if! {
@@ -72,6 +73,21 @@ macro_rules! invariant_impl {
             } else {
                 debug_assert!($expr);
             }
+        }
+    };
+}
+
+/// Declare an invariant (verification build: `--cfg fast_tlsh_verif`).
+///
+/// In this build, an invariant neither panics nor is handed to the optimizer.
+/// It is evaluated in every feature configuration and reported to
+/// [the invariant monitor](crate::verif::invariant_failed()) when `false`.
+#[cfg(fast_tlsh_verif)]
+macro_rules! invariant_impl {
+    ($expr: expr) => {
+        $crate::verif::invariant_evaluated();
+        if !($expr) {
+            $crate::verif::invariant_failed(file!(), line!(), stringify!($expr));
         }
     };
 }
